@@ -249,7 +249,7 @@ def _mk_trunc(fmt: str, chunk: int):
 
     @obligation(prop="C06", name="truncated_document_%s_%d" % (fmt, chunk), group="truncated_document_" + fmt,
                 sites=("unchanged",), encodes=["cincoconfig.core.Config.loads"],
-                budget={"quick": 200, "thorough": 400},
+                budget={"quick": 500, "thorough": 800},
                 what="a valid %s document truncated at every index k in [%d,%d) (k decided by the solver over its "
                      "finite domain; the parser itself is C / third-party code and runs concretely), wrong XML root, "
                      "undecodable bytes: a load that fails to PARSE leaves the configuration unchanged (loads that "
